@@ -66,31 +66,37 @@ def run(ctx):
     progs = c06.program_cases(ctx)
     # plus call/return and interrupt histories, which exercise the call bookkeeping
     extra = []
-    for _ in range(600 if ctx.tier == "thorough" else 120):
-        body = "".join(rng.choice(["00", "0805", "6c00", "28", "38", "4003"]) for _ in range(rng.randint(0, 3)))
-        tgt = rng.randrange(0x2000, 0xF000)
-        kind = rng.choice(["call", "callf", "ir"])
+    RET = {"call": "06", "callf": "07", "ir": "01"}
+    for _ in range(900 if ctx.tier == "thorough" else 200):
         regs = execgen.rand_regs(rng)
         regs["S"] = rng.randrange(0x8000, 0xB0000)
         regs["U"] = rng.randrange(0x8000, 0xB0000)
         regs["F"] = rng.randrange(4)
         mem = execgen.rand_mem(rng)
-        if kind == "call":
-            code = bytes([0x04, tgt & 0xFF, tgt >> 8]).hex() + "0805" + "00" * 6
-            ret = "06"
-        elif kind == "callf":
-            code = bytes([0x05, tgt & 0xFF, tgt >> 8, 0]).hex() + "0805" + "00" * 6
-            ret = "07"
-        else:
-            code = "fe" + "0805" + "00" * 6
-            ret = "01"
+        depth = rng.randint(1, 3)
+        tgts = rng.sample(range(0x2000, 0xF000, 0x40), depth)
+        kinds = [rng.choice(["call", "callf", "ir"]) if d == 0 else rng.choice(["call", "callf"]) for d in range(depth)]
+
+        def call_bytes(kind, tgt):
+            if kind == "call":
+                return bytes([0x04, tgt & 0xFF, tgt >> 8])
+            if kind == "callf":
+                return bytes([0x05, tgt & 0xFF, tgt >> 8, 0])
             for i in range(3):
                 mem[0xFFFFA + i] = (tgt >> (8 * i)) & 0xFF
-        prog = bytes.fromhex(body + ret)
-        for i, b in enumerate(prog):
-            mem[tgt + i] = b
-        nsteps = 2 + len(prog)
-        extra.append(((code, 0x100, regs, mem, 0), nsteps))
+            return bytes([0xFE])
+        code = call_bytes(kinds[0], tgts[0]).hex() + "0805" + "00" * 6
+        nsteps = 2
+        for d in range(depth):
+            body = bytes.fromhex("".join(rng.choice(["00", "0805", "6c00", "28", "38", "4003"]) for _ in range(rng.randint(0, 2))))
+            inner = call_bytes(kinds[d + 1], tgts[d + 1]) + bytes.fromhex("00") if d + 1 < depth else b""
+            # the callee returns with the matching return most of the time, with another kind otherwise (the architecture allows it)
+            ret = RET[kinds[d]] if rng.random() < 0.7 else rng.choice(["06", "07", "01"])
+            prog = body + inner + bytes.fromhex(ret)
+            for i, bb in enumerate(prog):
+                mem[tgts[d] + i] = bb
+            nsteps += len(prog)
+        extra.append(((code, 0x100, regs, mem, 0), min(nsteps, 14)))
     allp = progs + extra
     plines = []
     for case, n in allp:
